@@ -75,6 +75,8 @@ func latVals() []latVal {
 		{"Infinity", "Infinity", nNum(math.Inf(1))},
 		{"str", `"x"`, nStr("x")},
 		{"utf16-str", "String.fromCharCode(97)", nStr("a")},
+		{"utf16-nonascii", "String.fromCharCode(233, 8364)", nStr("é€")},
+		{"utf16-concat", `"h" + String.fromCharCode(105)`, nStr("hi")},
 		{"lone-surrogate", "String.fromCharCode(0xD800)", &anode{k: aExotic, class: "String"}},
 		{"true", "true", &anode{k: aBool, b: true}},
 		{"function", "(function(x){ return x + 1 })", &anode{k: aFunc, fn: "inc"}},
